@@ -421,6 +421,18 @@ func TestC01(t *testing.T) {
 		if c.Thorough {
 			maxToks = 6
 		}
+		// texts one token away from valid ones: those the grammar still derives get the ladder's tree, the others are
+		// not accepted
+		c.Sub("single-token-edits", func(s *Sub) {
+			var k int64
+			n := singleTokenEdits(func(text string) {
+				k++
+				if c.Mine(k) {
+					c.c01Text(s, "single-token-edits", text, true)
+				}
+			})
+			c.Ev.MarkExhaustive(fmt.Sprintf("%d small texts covering every construct x every single-token deletion, doubling, neighbour swap and insertion of each of the %d alphabet tokens", n, len(tokenAlphabet)))
+		})
 		c.Sub("enum-accepted-sequences", func(s *Sub) {
 			c.enumViable(maxToks, false, func(toks []bn.Tok, rp *refparse.Result, viable bool) {
 				c.c01Tokens(s, "enum-accepted-sequences", toks, rp)
